@@ -555,6 +555,10 @@ def start_live(ctx):
         for (bb, t, what) in start_sites(r, a):
             conds = dominating_conditions(a, bb)
             extra = conditions_within(conds, [(lambda d: d[0] == "call" and d[1] in names, True), (lambda d: d[0] == "call" and d[1].endswith("::is_none"), True), (lambda d: d[0] == "call" and d[1].endswith("::is_some"), False)])
+            # the exit condition of a small loop that precedes the start (draining a queue: `while rx.try_recv().is_ok() {}`) is passed sooner or later, it does
+            # not make the start depend on anything
+            inner_loops = [(h_, blks_) for (h_, blks_, ex_) in a.natural_loops() if bb not in blks_ and len(blks_) <= 12]
+            extra = [(e, descs, pol) for (e, descs, pol) in extra if not any(e.src in blks_ and e.dst not in blks_ for (h_, blks_) in inner_loops)]
             ctx.check(not extra, f"{r.actor_label(a)}/{short(callee_base(t))}", [site(a, bb)], "a start site is guarded by a condition beyond readiness / not-in-flight: " + fmt_conds(extra))
 
 
